@@ -85,9 +85,15 @@ EpBacked(p) == p.ep # -1 =>
    /\ p.b[SqOf(f, IF them = 0 THEN 3 ELSE 4)] = Mk(them, PAWN)
    /\ p.b[SqOf(f, IF them = 0 THEN 1 ELSE 6)] = 0
    /\ p.b[SqOf(f, IF them = 0 THEN 2 ELSE 5)] = 0
+\* "... an enemy pawn that could just have advanced two squares": if that advance was the last move, a check on the
+\* mover's king can only come from that pawn itself or be discovered through the square it left
+EpCheckConsistent(p) == (p.ep # -1 /\ Cardinality(Kings(p.b, p.stm)) = 1) =>
+   LET them == 1 - p.stm  ks == KingSq(p.b, p.stm)
+       pawn == SqOf(p.ep, IF them = 0 THEN 3 ELSE 4)  origin == SqOf(p.ep, IF them = 0 THEN 1 ELSE 6)
+   IN \A ch \in Attackers(p.b, ks, them) : ch = pawn \/ origin \in Between(ch, ks)
 ClocksOk(p) == p.hmc >= 0 /\ p.hmc <= 100 /\ p.fmn >= 1 /\ p.fmn <= 65535
 Valid(p) == /\ OneKingEach(p) /\ KingsApart(p) /\ Material(p) /\ NoBackRankPawns(p)
-            /\ OppNotInCheck(p) /\ RightsBacked(p) /\ EpBacked(p) /\ ClocksOk(p)
+            /\ OppNotInCheck(p) /\ RightsBacked(p) /\ EpBacked(p) /\ EpCheckConsistent(p) /\ ClocksOk(p)
 \* names of the clauses a state violates (for reports)
 Broken(p) == (IF OneKingEach(p) THEN {} ELSE {"kings"})
         \cup (IF ~OneKingEach(p) \/ KingsApart(p) THEN {} ELSE {"adjacent-kings"})
@@ -96,6 +102,7 @@ Broken(p) == (IF OneKingEach(p) THEN {} ELSE {"kings"})
         \cup (IF ~OneKingEach(p) \/ OppNotInCheck(p) THEN {} ELSE {"opponent-in-check"})
         \cup (IF RightsBacked(p) THEN {} ELSE {"rights"})
         \cup (IF EpBacked(p) THEN {} ELSE {"ep"})
+        \cup (IF EpCheckConsistent(p) THEN {} ELSE {"ep-vs-check"})
         \cup (IF ClocksOk(p) THEN {} ELSE {"clocks"})
 
 (* ---- hash model (C10): the hash is the XOR of the keys of these features ---- *)
